@@ -25,6 +25,10 @@ fn main() {
             debug_sh(&args[2..]);
             return;
         }
+        "dump-c01" => {
+            checks::c01::dump(args[2].parse().unwrap_or(10), args.get(3).and_then(|s| s.parse().ok()).unwrap_or(1));
+            return;
+        }
         "real-shell" => {
             checks::real::real_shell_main(args[2..].to_vec());
         }
